@@ -1002,12 +1002,26 @@ func callBuiltin(caller *frame, fn *ssa.Builtin, args []value) value {
 			add = args[1].([]value)
 		}
 		// append([]T, ...[]T) []T
-		return appendZeroFill(fn, args[0].([]value), add)
+		dst := args[0].([]value)
+		if caller.i.monitor != nil && len(add) > 0 && len(dst)+len(add) <= cap(dst) {
+			// an append within the capacity writes into the existing backing array
+			full := dst[:len(dst)+len(add)]
+			for k := len(dst); k < len(full); k++ {
+				caller.i.monitor.onStore(caller, &full[k])
+			}
+		}
+		return appendZeroFill(fn, dst, add)
 
 	case "copy": // copy([]T, []T) int or copy([]byte, string) int
 		src := args[1]
 		if isStr(src) {
 			src = strBytes(src)
+		}
+		if caller.i.monitor != nil {
+			d, sv := args[0].([]value), src.([]value)
+			for k := 0; k < len(d) && k < len(sv); k++ {
+				caller.i.monitor.onStore(caller, &d[k])
+			}
 		}
 		return copy(args[0].([]value), src.([]value))
 
